@@ -1154,6 +1154,73 @@ Proof.
            ++ right. exists q, pq. split; assumption.
 Qed.
 
+(* ================================================================== independence of orders *)
+Definition name_eq (n n' : list P) : Prop := forall x, In x n <-> In x n'.
+
+(* the same proteins with the same peptide sets, whatever the list orders *)
+Definition prots_sub (prots prots' : list (P * list nat)) : Prop :=
+  forall p peps, In (p, peps) prots -> exists peps', In (p, peps') prots' /\ seteq peps peps'.
+
+Lemma maximal_equiv : forall prots prots' S,
+  prots_sub prots prots' -> prots_sub prots' prots -> maximal prots S -> maximal prots' S.
+Proof.
+  intros prots prots' S H12 H21 [[p [peps [Hp [E1 E2]]]] Hm]. split.
+  - destruct (H12 p peps Hp) as [peps' [Hp' [F1 F2]]]. exists p, peps'. split; [assumption|]. split.
+    + intros a Ha. apply F1. apply E1. assumption.
+    + intros a Ha. apply E2. apply F2. assumption.
+  - intros q pq' Hq Hsub. destruct (H21 q pq' Hq) as [pq [Hq2 [F1 F2]]].
+    intros a Ha. apply (Hm q pq Hq2).
+    + intros b Hb. apply F1. apply Hsub. assumption.
+    + apply F1. assumption.
+Qed.
+
+Lemma groups_equiv : forall prots prots' g g',
+  prots_sub prots prots' -> prots_sub prots' prots ->
+  group_spec prots g -> group_spec prots' g' ->
+  forall n S, In (n, S) g -> exists n' S', In (n', S') g' /\ name_eq n n' /\ seteq S S'.
+Proof.
+  intros prots prots' g g' H12 H21 Hs Hs' n S Hin.
+  pose proof (gs_maximal _ _ Hs n S Hin) as Hmax.
+  apply (maximal_equiv prots prots' S H12 H21) in Hmax.
+  destruct (gs_all_maximal _ _ Hs' S Hmax) as [n' [S' [Hin' [E1 E2]]]].
+  exists n', S'. split; [assumption|]. split; [|split; assumption].
+  intros x. rewrite (gs_members _ _ Hs n S Hin x). rewrite (gs_members _ _ Hs' n' S' Hin' x). split.
+  - intros [peps [Hx Hsub]]. destruct (H12 x peps Hx) as [peps' [Hx' [F1 F2]]]. exists peps'.
+    split; [assumption|]. intros a Ha. apply E2. apply Hsub. apply F2. assumption.
+  - intros [peps' [Hx' Hsub]]. destruct (H21 x peps' Hx') as [peps [Hx [F1 F2]]]. exists peps.
+    split; [assumption|]. intros a Ha. apply E1. apply Hsub. apply F2. assumption.
+Qed.
+
+Lemma same_members_same_group : forall prots g n S n' S',
+  NoDup (map fst prots) -> group_spec prots g ->
+  In (n, S) g -> In (n', S') g -> name_eq n n' -> n = n'.
+Proof.
+  intros prots g n S n' S' Hnd Hs Hin Hin' Heq.
+  destruct (gs_founder _ _ Hs n S Hin) as [f [Hfn HfS]].
+  apply Heq in Hfn. apply (gs_members _ _ Hs n' S' Hin' f) in Hfn.
+  destruct Hfn as [peps [Hf Hsub]].
+  assert (E : (f, peps) = (f, S)) by (eapply nodup_map_inj; [exact Hnd|assumption|assumption|reflexivity]).
+  injection E as E. subst peps.
+  apply (gs_anti _ _ Hs n S n' S' Hin Hin' Hsub).
+Qed.
+
+(* _group_proteins: neither the order of the proteins, nor the order inside the peptide sets,
+   nor the iteration order of [matches] changes the groups (as sets of members and peptides) *)
+Theorem group_order_free : forall pi pi' prots prots' pm0 pm0' g pm g' pm',
+  perm_oracle pi -> perm_oracle pi' -> wf_prots prots -> wf_prots prots' ->
+  pm0_ok prots pm0 -> pm0_ok prots' pm0' ->
+  prots_sub prots prots' -> prots_sub prots' prots ->
+  gr_group P peqb pi prots pm0 = Ok (g, pm) -> gr_group P peqb pi' prots' pm0' = Ok (g', pm') ->
+  forall n S, In (n, S) g -> exists n' S', In (n', S') g' /\ name_eq n n' /\ seteq S S'.
+Proof.
+  intros pi pi' prots prots' pm0 pm0' g pm g' pm' Hpi Hpi' Hwf Hwf' H0 H0' H12 H21 Hrun Hrun'.
+  destruct (group_ok pi prots pm0 Hpi Hwf H0) as [g1 [pm1 [R1 [Hs _]]]].
+  destruct (group_ok pi' prots' pm0' Hpi' Hwf' H0') as [g2 [pm2 [R2 [Hs' _]]]].
+  rewrite Hrun in R1. injection R1 as E1 E2. subst g1 pm1.
+  rewrite Hrun' in R2. injection R2 as E1 E2. subst g2 pm2.
+  apply (groups_equiv prots prots' g g' H12 H21 Hs Hs').
+Qed.
+
 (* ================================================================== read_fasta: decoys, unique / shared *)
 Section Fasta.
 Variable is_decoy : P -> bool.
@@ -1390,6 +1457,174 @@ Proof.
     apply (Permutation_in _ (Permutation_sym (Permutation_map fst Hperm))) in Hx1.
     rewrite (Hall x Hx1) in Hx2. discriminate. }
   rewrite Htg. reflexivity.
+Qed.
+
+Lemma read_fasta_inv : forall pi entries out,
+  perm_oracle pi -> NoDup (map fst entries) ->
+  gr_read_fasta P peqb pi is_decoy decoy_of entries = Ok out -> fasta_spec entries out.
+Proof.
+  intros pi entries out Hpi Hnd Hrun.
+  destruct (existsb (fun t => negb (is_decoy t)) (map fst (clean entries))) eqn:E.
+  - apply existsb_exists in E. destruct E as [t [Ht Hd]].
+    destruct (read_fasta_ok pi entries Hpi Hnd) as [out' [Hrun' Hspec]].
+    + exists t. split; [assumption|]. destruct (is_decoy t); [discriminate|reflexivity].
+    + rewrite Hrun in Hrun'. injection Hrun' as E2. subst out'. assumption.
+  - exfalso. destruct entries as [|e0 es] eqn:Ee.
+    + rewrite read_fasta_empty in Hrun. discriminate.
+    + rewrite <- Ee in *. rewrite (read_fasta_only_decoys pi entries) in Hrun; [discriminate|congruence|assumption|].
+      intros t Ht. destruct (is_decoy t) eqn:Ed; [reflexivity|].
+      assert (Hc : existsb (fun t => negb (is_decoy t)) (map fst (clean entries)) = true).
+      { apply existsb_exists. exists t. split; [assumption|rewrite Ed; reflexivity]. }
+      congruence.
+Qed.
+
+(* the incidence relation read off a FASTA entry list *)
+Definition inc (entries : list (P * list nat)) (p : P) (pep : nat) : Prop :=
+  exists raw, In (p, raw) entries /\ In pep raw.
+
+Lemma clean_in : forall entries p peps,
+  In (p, peps) (clean entries) <-> exists raw, In (p, raw) entries /\ peps = gr_dedup raw /\ peps <> [].
+Proof.
+  intros entries p peps. unfold clean. rewrite in_flat_map. split.
+  - intros [[q raw] [Hin H]]. simpl in H. destruct (gr_dedup raw) as [|a l] eqn:E; [contradiction|].
+    destruct H as [H|[]]. injection H as E1 E2. subst q peps. exists raw.
+    split; [assumption|]. split; [symmetry; assumption|discriminate].
+  - intros [raw [Hin [E Hne]]]. exists (p, raw). split; [assumption|]. simpl.
+    destruct (gr_dedup raw) as [|a l] eqn:E2; [congruence|]. left. congruence.
+Qed.
+
+Lemma clean_inc : forall entries p peps, NoDup (map fst entries) -> In (p, peps) (clean entries) ->
+  forall pep, In pep peps <-> inc entries p pep.
+Proof.
+  intros entries p peps Hnd Hin pep. apply clean_in in Hin. destruct Hin as [raw [Hraw [E _]]]. subst peps.
+  rewrite dedup_in. split.
+  - intros H. exists raw. split; assumption.
+  - intros [raw' [Hraw' H]].
+    assert (E : (p, raw') = (p, raw)) by (eapply nodup_map_inj; [exact Hnd|assumption|assumption|reflexivity]).
+    injection E as E. subst raw'. assumption.
+Qed.
+
+Lemma inc_clean : forall entries p pep, inc entries p pep ->
+  exists peps, In (p, peps) (clean entries) /\ In pep peps.
+Proof.
+  intros entries p pep [raw [Hraw Hpep]]. exists (gr_dedup raw). split.
+  - apply clean_in. exists raw. split; [assumption|]. split; [reflexivity|].
+    intros E. apply dedup_in in Hpep. rewrite E in Hpep. destruct Hpep.
+  - apply dedup_in. assumption.
+Qed.
+
+Lemma clean_sub : forall entries entries',
+  NoDup (map fst entries) -> NoDup (map fst entries') ->
+  (forall p pep, inc entries p pep <-> inc entries' p pep) ->
+  prots_sub (clean entries) (clean entries').
+Proof.
+  intros entries entries' Hnd Hnd' Hinc p peps Hin.
+  destruct (clean_wf entries Hnd) as [_ Wp]. destruct (Wp p peps Hin) as [_ Hne].
+  destruct peps as [|pep0 r] eqn:Ep; [congruence|]. rewrite <- Ep in *.
+  assert (H0 : In pep0 peps) by (rewrite Ep; left; reflexivity).
+  apply (clean_inc entries p peps Hnd Hin) in H0. apply Hinc in H0.
+  destruct (inc_clean entries' p pep0 H0) as [peps' [Hin' _]].
+  exists peps'. split; [assumption|]. split; intros a Ha.
+  - apply (clean_inc entries' p peps' Hnd' Hin'). apply Hinc. apply (clean_inc entries p peps Hnd Hin). assumption.
+  - apply (clean_inc entries p peps Hnd Hin). apply Hinc. apply (clean_inc entries' p peps' Hnd' Hin'). assumption.
+Qed.
+
+Lemma clean_name_inc : forall entries p, NoDup (map fst entries) ->
+  (In p (map fst (clean entries)) <-> exists pep, inc entries p pep).
+Proof.
+  intros entries p Hnd. split.
+  - intros H. apply in_map_iff in H. destruct H as [[q peps] [E Hin]]. simpl in E. subst q.
+    destruct (clean_wf entries Hnd) as [_ Wp]. destruct (Wp p peps Hin) as [_ Hne].
+    destruct peps as [|pep0 r] eqn:Ep; [congruence|]. rewrite <- Ep in *. exists pep0.
+    apply (clean_inc entries p peps Hnd Hin). rewrite Ep. left. reflexivity.
+  - intros [pep H]. destruct (inc_clean entries p pep H) as [peps [Hin _]].
+    change p with (fst (p, peps)). apply in_map. assumption.
+Qed.
+
+(* equality of two results of read_fasta up to the orders inside names and sets *)
+Definition out_sub (out out' : gr_out P) : Prop :=
+  (forall pep n, In (pep, n) (gr_unique P out) ->
+     exists n', In (pep, n') (gr_unique P out') /\ name_eq n n') /\
+  (forall pep ns, In (pep, ns) (gr_shared P out) ->
+     exists ns', In (pep, ns') (gr_shared P out') /\
+                 forall n, In n ns -> exists n', In n' ns' /\ name_eq n n') /\
+  (forall t d, In (t, d) (gr_protein_map P out) -> In (t, d) (gr_protein_map P out')) /\
+  (gr_has_decoys P out = true -> gr_has_decoys P out' = true).
+
+Lemma in_group_equiv : forall prots prots' g g',
+  prots_sub prots prots' -> prots_sub prots' prots -> group_spec prots g -> group_spec prots' g' ->
+  forall n pep, in_group g n pep -> exists n', in_group g' n' pep /\ name_eq n n'.
+Proof.
+  intros prots prots' g g' H12 H21 Hs Hs' n pep [S [Hin Hpep]].
+  destruct (groups_equiv prots prots' g g' H12 H21 Hs Hs' n S Hin) as [n' [S' [Hin' [Hn [E1 E2]]]]].
+  exists n'. split; [|assumption]. exists S'. split; [assumption|apply E1; assumption].
+Qed.
+
+Lemma out_sub_ok : forall entries entries' out out',
+  NoDup (map fst entries) -> NoDup (map fst entries') ->
+  (forall p pep, inc entries p pep <-> inc entries' p pep) ->
+  fasta_spec entries out -> fasta_spec entries' out' -> out_sub out out'.
+Proof.
+  intros entries entries' out out' Hnd Hnd' Hinc Hf Hf'.
+  assert (H12 : prots_sub (clean entries) (clean entries')) by (apply clean_sub; assumption).
+  assert (H21 : prots_sub (clean entries') (clean entries)).
+  { apply clean_sub; try assumption. intros p pep. symmetry. apply Hinc. }
+  destruct (clean_wf entries Hnd) as [Wn _]. destruct (clean_wf entries' Hnd') as [Wn' _].
+  destruct (fs_groups _ _ Hf) as [g [Hs [U [Sh1 Sh2]]]].
+  destruct (fs_groups _ _ Hf') as [g' [Hs' [U' [Sh1' Sh2']]]].
+  assert (Hfw := in_group_equiv _ _ g g' H12 H21 Hs Hs').
+  assert (Hbw := in_group_equiv _ _ g' g H21 H12 Hs' Hs).
+  assert (Hname : forall t, In t (map fst (clean entries)) -> In t (map fst (clean entries'))).
+  { intros t Ht. apply (clean_name_inc entries' t Hnd'). apply (clean_name_inc entries t Hnd) in Ht.
+    destruct Ht as [pep Ht]. exists pep. apply Hinc. assumption. }
+  split; [|split; [|split]].
+  - intros pep n Hin. apply U in Hin. destruct Hin as [Hn Hall].
+    destruct (Hfw n pep Hn) as [n' [Hn' Heq]]. exists n'. split; [|assumption].
+    apply U'. split; [assumption|]. intros m' Hm'.
+    destruct (Hbw m' pep Hm') as [m [Hm Heq2]].
+    assert (E : m = n) by (apply Hall; assumption). subst m.
+    destruct Hm' as [S1 [HinS1 _]]. destruct Hn' as [S2 [HinS2 _]].
+    apply (same_members_same_group (clean entries') g' m' S1 n' S2 Wn' Hs' HinS1 HinS2).
+    intros x. rewrite (Heq2 x). apply Heq.
+  - intros pep ns Hin. destruct (Sh1 pep ns Hin) as [Hndns [Hlen Hns]].
+    destruct ns as [|a [|b l]] eqn:Ens; simpl in Hlen; try lia. rewrite <- Ens in *.
+    assert (Ha : In a ns) by (rewrite Ens; left; reflexivity).
+    assert (Hb : In b ns) by (rewrite Ens; right; left; reflexivity).
+    assert (Hab : a <> b).
+    { rewrite Ens in Hndns. inversion Hndns as [|? ? Hx _]; subst. intros E. apply Hx. left. congruence. }
+    apply Hns in Ha. apply Hns in Hb.
+    destruct (Hfw a pep Ha) as [a' [Ha' Heqa]]. destruct (Hfw b pep Hb) as [b' [Hb' Heqb]].
+    assert (Hab' : a' <> b').
+    { intros E. subst b'. apply Hab.
+      destruct Ha as [S1 [HinS1 _]]. destruct Hb as [S2 [HinS2 _]].
+      apply (same_members_same_group (clean entries) g a S1 b S2 Wn Hs HinS1 HinS2).
+      intros x. rewrite (Heqa x). symmetry. apply Heqb. }
+    pose proof (Sh2' pep a' b' Hab' Ha' Hb') as Hk. apply in_map_iff in Hk.
+    destruct Hk as [[pep' ns'] [E Hin']]. simpl in E. subst pep'.
+    exists ns'. split; [assumption|].
+    intros n Hn. apply Hns in Hn. destruct (Hfw n pep Hn) as [n' [Hn' Heq]]. exists n'.
+    split; [|assumption]. apply (proj2 (proj2 (Sh1' pep ns' Hin'))). assumption.
+  - intros t d Hin. apply (fs_pmap _ _ Hf) in Hin. destruct Hin as [H1 [H2 H3]].
+    apply (fs_pmap _ _ Hf'). split; [apply Hname; assumption|split; assumption].
+  - intros H. apply (fs_has_decoys _ _ Hf) in H. destruct H as [t [H1 [H2 H3]]].
+    apply (fs_has_decoys _ _ Hf'). exists t. split; [apply Hname; assumption|].
+    split; [assumption|apply Hname; assumption].
+Qed.
+
+Theorem read_fasta_order_free : forall pi pi' entries entries' out out',
+  perm_oracle pi -> perm_oracle pi' ->
+  NoDup (map fst entries) -> NoDup (map fst entries') ->
+  (forall p pep, inc entries p pep <-> inc entries' p pep) ->
+  gr_read_fasta P peqb pi is_decoy decoy_of entries = Ok out ->
+  gr_read_fasta P peqb pi' is_decoy decoy_of entries' = Ok out' ->
+  out_sub out out' /\ out_sub out' out.
+Proof.
+  intros pi pi' entries entries' out out' Hpi Hpi' Hnd Hnd' Hinc Hrun Hrun'.
+  pose proof (read_fasta_inv pi entries out Hpi Hnd Hrun) as Hf.
+  pose proof (read_fasta_inv pi' entries' out' Hpi' Hnd' Hrun') as Hf'.
+  split.
+  - apply (out_sub_ok entries entries'); assumption.
+  - apply (out_sub_ok entries' entries); try assumption. intros p pep. symmetry. apply Hinc.
 Qed.
 
 End Fasta.
